@@ -148,6 +148,21 @@ def runSig (r : ObsRun) (o : SimOut OState) : List String :=
   f r.run.args.onlyClientEvents "fC" ++ f r.run.args.onlyNetworkActivity "fN" ++
   f (!r.run.adv) "apiSim"
 
+/-- features of the input trace (shape of the workload) -/
+def traceSig (c : CaseIn) : List String :=
+  let f (b : Bool) (s : String) : List String := if b then [s] else []
+  let ts := c.trace.map (·.1)
+  let pairs := c.trace.zip (c.trace.drop 1)
+  let n := c.trace.length
+  f (n == 1) "n1" ++ f (n ≥ 2 && n ≤ 10) "nS" ++ f (n > 10 && n ≤ 30) "nM" ++ f (n > 30) "nL" ++
+  f (pairs.any fun (a, b) => a.1 == b.1 && a.2 == b.2) "burst" ++
+  f (pairs.any fun (a, b) => a.1 == b.1 && a.2 != b.2) "bothdir" ++
+  f (pairs.any fun (a, b) => b.1 - a.1 ≥ 1000000000) "gap1s" ++
+  f (pairs.any fun (a, b) => b.1 - a.1 > 0 && b.1 - a.1 ≤ 1000000) "gapSub1ms" ++
+  f (ts.head?.getD 0 > 0) "t0pos" ++
+  f (c.trace.all (·.2)) "onlyS" ++ f (c.trace.all (!·.2)) "onlyR" ++
+  [s!"d{c.delay}"]
+
 def dedup (l : List String) : List String :=
   l.foldl (fun acc s => if acc.contains s then acc else acc ++ [s]) []
 
@@ -172,7 +187,7 @@ def run (cases : List CaseBlock) (args : List String) : IO Unit := do
       let mut diffs : List String := []
       let mut projs : List String := []
       let noMachines := p.input.mc.isEmpty && p.input.ms.isEmpty
-      let mut sigs : List String := [s!"c{p.input.mc.length}s{p.input.ms.length}"]
+      let mut sigs : List String := [s!"c{p.input.mc.length}s{p.input.ms.length}"] ++ traceSig p.input
       let mut nev := 0
       let mut models : List (ObsRun × SimOut OState × Int) := []
       if args.contains "machines" then
